@@ -37,6 +37,7 @@ EXPECTED_PROBES = ['pair_restore', 'pair_reuse', 'pair_strip', 'pair_gpu', 'pair
 
 def gen(rng, tier, i):
     script = cgen.gen_script(rng, max_gates=rng.choice([6, 12, 24, 40 if tier == 'thorough' else 24]), max_in=6, max_ff=3, p_glitchy=rng.choice([0.1, 0.3]))
+    if rng.random() < 0.03: script = {'net': 'b01', 'ffs': [1], 'style': 'b'}
     sims = rng.randint(1, 6)
     n_sets = rng.choice([1, 1, 2, 3])
     batches = wavegen.gen_batches(rng, n_max=3, sims=sims, p_k=0.0)
